@@ -352,13 +352,13 @@ def _p_nn(tier):
 
 
 HARNESSES = [
-    HarnessSpec('root', h_root, lambda t: [{'slen': n} for n in ((1, 3) if t == 'quick' else (1, 2, 3, 8))], replay=r_generic,
+    HarnessSpec('root', h_root, lambda t: [{'slen': n} for n in ((1, 3) if t == 'quick' else (1, 2, 3, 8))], witness_replay=True, replay=r_generic,
                 signature=_sig, fallback=_fallback),
     HarnessSpec('step', h_step, _p_step, replay=r_generic, signature=_sig, fallback=_fallback),
     HarnessSpec('graftap', h_graftap, lambda t: [{'flag': f, 'allowed': a} for f, a in ((0, 0), (1, 3), (4, 3), (0x40, 0x40)) +
                                                  (((2, 2), (0x80, 0x7f), (0x81, 0x81)) if t != 'quick' else ())],
-                replay=r_graftap, signature=_sig, fallback=_fallback),
-    HarnessSpec('keyspend', h_keyspend, [{'flag': 0, 'allowed': 0}, {'flag': 1, 'allowed': 3}, {'flag': 4, 'allowed': 3}], replay=r_generic,
+                witness_replay=True, replay=r_graftap, signature=_sig, fallback=_fallback),
+    HarnessSpec('keyspend', h_keyspend, [{'flag': 0, 'allowed': 0}, {'flag': 1, 'allowed': 3}, {'flag': 4, 'allowed': 3}], witness_replay=True, replay=r_generic,
                 signature=_sig, fallback=_fallback),
     HarnessSpec('scriptspend', h_scriptspend, lambda t: [{'slen': n} for n in ((1, 3) if t == 'quick' else (1, 2, 3, 8))],
                 replay=r_generic, signature=_sig, fallback=_fallback),
